@@ -191,7 +191,7 @@ class Recorder:
 
 
 REC = Recorder()
-PLAN = {"task": {}, "phase": {}, "init_labels": None, "label_script": None, "round_budget": None}
+PLAN = {"task": {}, "phase": {}, "init_labels": None, "label_script": None, "label_script_then": None, "round_budget": None}
 
 
 class RoundBudgetExceeded(Exception):
@@ -274,12 +274,16 @@ def install_label_monitor():
         b_before = np.array(beta, copy=True) if isinstance(beta, np.ndarray) else beta
         r = orig(*args, **kwargs)
         script = PLAN.get("label_script")
+        forced = False
         if script is not None:
-            # forced history: the labelling of this round is scripted by the harness (the rest of the loop is the real code)
+            # forced history: the labelling of this round is scripted by the harness (the rest of the loop is the real code);
+            # with label_script_then == "natural" the run continues with its own labellings once the script is used up
             k_ = sum(1 for p_ in REC.phases if p_["phase"] == "label")
-            r = (list(script[min(k_, len(script) - 1)]), float(r[1]))
+            if k_ < len(script) or PLAN.get("label_script_then") != "natural":
+                r = (list(script[min(k_, len(script) - 1)]), float(r[1]))
+                forced = True
         count("label_calls")
-        REC.label_steps.append(dict(round=sum(1 for p_ in REC.phases if p_["phase"] == "label"),
+        REC.label_steps.append(dict(round=sum(1 for p_ in REC.phases if p_["phase"] == "label"), scripted=forced,
                                     table=t_before, beta=b_before, beta_is_array=isinstance(beta, np.ndarray),
                                     labels=list(r[0]), cost=r[1],
                                     table_unchanged=_arr_equal(t_before, table),
@@ -399,6 +403,7 @@ def reset_run():
     PLAN["phase"] = {}
     PLAN["init_labels"] = None
     PLAN["label_script"] = None
+    PLAN["label_script_then"] = None
     PLAN["round_budget"] = None
 
 
